@@ -68,7 +68,7 @@ def check(run):
                           {"stream": "http-io", "input": {"requests_at_once": 2, "client": "127.0.0.1 (both)"}, "detail": b})
         run.oblige("HTTP surface: %d rounds of two simultaneous /io requests from one address on a real Server - the shell's input and output belong to "
                    "the same request (%d rounds ended with a full shell)" % (len(pairs), attached),
-                   not crossed and len(pairs) == nproc * rounds and attached >= len(pairs) // 2, json.dumps(crossed[:3]) + str([o[1] for o in outs if o[1]][:1]))
+                   not crossed and len(pairs) == nproc * rounds and attached >= max(1, len(pairs) // 4), json.dumps(crossed[:3]) + str([o[1] for o in outs if o[1]][:1]))
         run.cov["http_io_rounds"] = len(pairs)
     # really concurrent requests (a one-sided TEST: the non-atomic-counter kind of defect only shows under a real scheduler)
     pass
